@@ -66,6 +66,23 @@ def call(el, v):
     return kind, nwarn
 
 
+def call_strict(el, v):
+    """Same call with warnings escalated to errors (python -W error / pytest filterwarnings=error)."""
+    with warnings.catch_warnings():
+        warnings.simplefilter("error")
+        try:
+            el(copy.deepcopy(v))
+            return "ACCEPT"
+        except ValidationError:
+            return "REJECT"
+        except RuntimeWarning:
+            return "WARNING-RAISED"
+        except TypeError:
+            return "TYPEERROR"
+        except Exception as exc:  # noqa
+            return "OTHER:" + type(exc).__name__
+
+
 def check_state(st, model, hist_names):
     for name in NAMES:
         for kname, el, wrap in kinds(name):
@@ -90,6 +107,10 @@ def check_state(st, model, hist_names):
                     if not typed and name not in model:
                         want_warn = 0
                 case = {"history": hist_names, "format": name, "element": kname, "value": v, "registry": {k: m[0] for k, m in model.items()}}
+                if isinstance(v, str) and name not in model and kname.startswith(("String", "Element")):
+                    ks = call_strict(el, wrap(v))
+                    if ks != "WARNING-RAISED":
+                        st.violation("format-unregistered-under-error-filter:%s" % ks, "after %s: %s format=%r value %r with warnings escalated to errors -> %s (an unregistered format must warn, never reject)" % (hist_names, kname, name, v, ks), {**case, "observed": ks}, rank=len(hist_names))
                 if kind != want:
                     key = "format-verdict:%s" % ("nonstring" if not isinstance(v, str) else ("unregistered" if name not in model else "registered"))
                     st.violation(key, "after %s: %s format=%r value %r -> %s, reference model says %s" % (hist_names, kname, name, v, kind, want), {**case, "observed": kind, "expected": want}, rank=len(hist_names))
